@@ -6,7 +6,8 @@ usage: tools/mutation_campaign.py <verif-clone> <out.jsonl> <n-per-property> <ID
 For every property ID, draws n mutants (fixed seed) from the functions of the property's anchor files
 (properties.jsonl -> anchors.files; only the functions the anchors mention by name; cnvlib/params.py and cnvlib/commands.py excluded), one small textual edit each:
   comparison operators (< <-> <=, > <-> >=, == <-> !=), + <-> -, `and` <-> `or`, small integer constants n -> n + 1,
-  a negated `if` test.
+  a negated `if` test.  With MUT_OPS=2: only name / attribute / literal swaps (min <-> max, any <-> all, .start <-> .end,
+  True <-> False, 'outer' <-> 'inner', [-1] -> [0]).
 Each mutant is written into a scratch worktree of /repo (never /repo itself) and the property's quick check of the
 given /verif clone (a git worktree of /verif, already set up) is run against it through CNVKIT_REPO.  One JSON line per
 mutant: file, line, operator, the edited source line before / after, the check's exit code, and how it was caught
@@ -21,6 +22,7 @@ SKIP_FILES = {'cnvlib/params.py', 'cnvlib/commands.py'}
 props = {json.loads(l)['id']: json.loads(l) for l in open('/verif/properties.jsonl')}
 
 
+OPS2 = os.environ.get('MUT_OPS') == '2'     # second operator set: name / attribute / literal swaps (min-max, any-all, start-end, True-False, ...)
 ANCHORED = None      # names of the functions the property's anchors mention (set per property in main)
 
 
@@ -66,6 +68,24 @@ def sites_of(path, rel):
                 s = seg(n.lineno, n.col_offset, n.end_lineno, n.end_col_offset)
                 if s == str(n.value):
                     out.append((fn.name, n.lineno, n.col_offset, n.end_col_offset, str(n.value + 1), 'const %d->%d' % (n.value, n.value + 1)))
+            elif OPS2 and isinstance(n, ast.Name) and n.id in ('min', 'max', 'any', 'all') and n.lineno == n.end_lineno:
+                swap = {'min': 'max', 'max': 'min', 'any': 'all', 'all': 'any'}[n.id]
+                out.append((fn.name, n.lineno, n.col_offset, n.end_col_offset, swap, 'name %s->%s' % (n.id, swap)))
+            elif OPS2 and isinstance(n, ast.Attribute) and n.attr in ('start', 'end', 'min', 'max', 'any', 'all', 'first', 'last') \
+                    and n.lineno == n.end_lineno and isinstance(n.ctx, ast.Load):
+                swap = {'start': 'end', 'end': 'start', 'min': 'max', 'max': 'min', 'any': 'all', 'all': 'any',
+                        'first': 'last', 'last': 'first'}[n.attr]
+                out.append((fn.name, n.lineno, n.end_col_offset - len(n.attr), n.end_col_offset, swap, 'attr %s->%s' % (n.attr, swap)))
+            elif OPS2 and isinstance(n, ast.Constant) and isinstance(n.value, bool) and n.lineno == n.end_lineno:
+                out.append((fn.name, n.lineno, n.col_offset, n.end_col_offset, str(not n.value), 'bool %s->%s' % (n.value, not n.value)))
+            elif OPS2 and isinstance(n, ast.Constant) and isinstance(n.value, str) and n.value in ('start', 'end', 'outer', 'inner', 'left', 'right') \
+                    and n.lineno == n.end_lineno:
+                swap = {'start': 'end', 'end': 'start', 'outer': 'inner', 'inner': 'outer', 'left': 'right', 'right': 'left'}[n.value]
+                q = lines[n.lineno - 1][n.col_offset]
+                out.append((fn.name, n.lineno, n.col_offset, n.end_col_offset, q + swap + q, 'str %s->%s' % (n.value, swap)))
+            elif OPS2 and isinstance(n, ast.UnaryOp) and isinstance(n.op, ast.USub) and isinstance(n.operand, ast.Constant) \
+                    and n.operand.value == 1 and n.lineno == n.end_lineno:
+                out.append((fn.name, n.lineno, n.col_offset, n.end_col_offset, '0', 'index -1->0'))
             elif isinstance(n, ast.If) and n.test.lineno == n.test.end_lineno and not isinstance(n.test, ast.UnaryOp):
                 t = n.test
                 s = seg(t.lineno, t.col_offset, t.end_lineno, t.end_col_offset)
@@ -92,6 +112,8 @@ def main():
                         continue
                     lines, sites = sites_of(os.path.join(REPO, rel), rel)
                     allsites += [(rel, s) for s in sites]
+                if OPS2:
+                    allsites = [x for x in allsites if x[1][5].split()[0] in ('name', 'attr', 'bool', 'str', 'index')]
                 rng.shuffle(allsites)
                 for rel, (fname, ln, c0, c1, new, op) in allsites[:N]:
                     path = os.path.join(W, rel)
